@@ -146,6 +146,7 @@ func runConc(seed int64, nclients, nops int, size uint64, out string, shape stri
 	startB := make(chan struct{})
 	var startOnce sync.Once
 	var aborted sync.Map
+	steerProc := map[string]string{"staledir": "remove", "rmrebind": "remove", "renamegone": "rename"}[shape]
 	if shape == "coldcache" {
 		var rd int64
 		r.d.SlowRead = func(a uint64) {
@@ -184,12 +185,13 @@ func runConc(seed int64, nclients, nops int, size uint64, out string, shape stri
 			ct.txns[op] = append(ct.txns[op], fmt.Sprintf("%s0:%d", tag, arg))
 		}
 		ct.mu.Unlock()
-		if shape == "staledir" {
-			// a REMOVE that gave up its locks (abort) and is about to take them again in order (the next acquire of the
-			// same call): the other client now removes the directory, makes a new one (same number) and moves the
-			// child back in under the same name
+		if steerProc != "" {
+			// a call that gave up its locks (abort) and is about to take them again in order (the next acquire of the
+			// same call) is held there while client 0 runs its sequence: staledir - the directory is removed, a new one
+			// gets its number and the child is moved back in under the same name; rmrebind - the name is bound to
+			// another object; renamegone - the target of the RENAME is removed
 			g := goid()
-			if p, ok := curProc.Load(g); ok && p.(string) == "remove" {
+			if p, ok := curProc.Load(g); ok && p.(string) == steerProc {
 				if kind == 5 {
 					aborted.Store(g, true)
 				} else if _, was := aborted.Load(g); was && kind == 0 {
@@ -238,6 +240,28 @@ func runConc(seed int64, nclients, nops int, size uint64, out string, shape stri
 			}
 			// (files outside the big directory: a listing would wait for a stalled child's lock)
 			return Op{Id: id, Proc: "getattr", H: files[rg.Intn(len(files))]}
+		case "rmrebind", "renamegone":
+			i := id % 1000
+			switch id / 1000 {
+			case 0: // (waits for the other call's abort, see the client loop)
+				seq := []Op{{Id: id, Proc: "rename", H: "@4", Name: "a", H2: "@4", Name2: "h"}, {Id: id, Proc: "create", H: "@4", Name: "a"}}
+				if shape == "renamegone" {
+					seq = []Op{{Id: id, Proc: "remove", H: "@5", Name: "a"}}
+				}
+				if i >= 100 && i-100 < len(seq) {
+					return seq[i-100]
+				}
+				return Op{Id: id, Proc: "getattr", H: "@2"}
+			case 1:
+				if i == 101 && shape == "rmrebind" {
+					return Op{Id: id, Proc: "remove", H: "@4", Name: "a"}
+				}
+				if i == 101 {
+					return Op{Id: id, Proc: "rename", H: "@4", Name: "a", H2: "@5", Name2: "a"}
+				}
+				return Op{Id: id, Proc: "lookup", H: "@4", Name: []string{"a", "b"}[i%2]}
+			}
+			return []Op{{Id: id, Proc: "lookup", H: "@4", Name: "b"}, {Id: id, Proc: "getattr", H: "@1"}, {Id: id, Proc: "lookup", H: "@5", Name: "a"}}[i%3]
 		case "allocretry":
 			if id%1000 == 100 {
 				return Op{Id: id, Proc: "create", H: "root", Name: "zz"}
@@ -356,7 +380,7 @@ func runConc(seed int64, nclients, nops int, size uint64, out string, shape stri
 			if shape == "coldcache" && c%2 == 0 {
 				n = nops * 40 // the listing clients are fast; they keep going while the others stall
 			}
-			if shape == "staledir" && c == 0 {
+			if steerProc != "" && c == 0 {
 				select {
 				case <-startB:
 				case <-time.After(800 * time.Millisecond):
